@@ -1330,3 +1330,442 @@ Proof.
       apply andb_true_iff in F1 as [A1 B1]. apply andb_true_iff in F2 as [A2 B2].
       apply str_eqb_eq in A1, B1, A2, B2. inversion eq_env. congruence.
 Qed.
+
+(* ------------------------------------------------------------------------------------------ *)
+(* 13. when is a static declaration accepted?  (converse of the look-up characterisation)      *)
+(* ------------------------------------------------------------------------------------------ *)
+(* the part of inv_b that excludes the internal-error branches of Trellis.create on a file:
+   a file node has a file row; without creator it is detached; its creator is not a file, and
+   when the node is detached the creator is a detached step or tree *)
+Definition fnode_ok (s : st) (l : str) : Prop :=
+  match node_view (KFile, l) s with
+  | None => True
+  | Some (cre, det) =>
+    is_some (file_view l s) = true /\
+    match cre with
+    | None => det = true
+    | Some oc => det = true -> is_detached oc s = true /\ (fst oc = KStep \/ fst oc = KTree)
+    end
+  end.
+Definition Pst (s : st) : Prop := no_file_creator_b s = true /\ forall l, fnode_ok s l.
+
+Lemma file_init_unconfirmed_ok l s : exists s', file_initialize_row l FUnconfirmed s = Ok s'.
+Proof.
+  unfold file_initialize_row. destruct (find_file l s) as [r|] eqn:F.
+  - unfold set_fstate, set_fstate_hash. rewrite F. cbn. eexists. reflexivity.
+  - cbn. eexists. reflexivity.
+Qed.
+
+Lemma claim_none_detached l s n :
+  fnode_ok s l -> find_node (KFile, l) s = Some n -> existing_claim l s = Ok None -> ndet n = true.
+Proof.
+  unfold fnode_ok, existing_claim, node_view, file_view. intros Hok F. rewrite F in *.
+  destruct Hok as [Hrow Hcre]. destruct (find_file l s) as [r|]; [|discriminate].
+  destruct (ndet n) eqn:D; [reflexivity|]. intros H.
+  destruct (ncre n) as [oc|]; [|discriminate].
+  destruct (role_of (fstt r)); discriminate.
+Qed.
+
+Lemma declare_file_unconfirmed_ok (c : key) l s :
+  Pst s -> fst c = KStep -> existsn c s = true -> existing_claim l s = Ok None ->
+  exists s', declare_file c l FUnconfirmed s = Ok s'.
+Proof.
+  intros [Hnfc Hok] Hk Hex Hcl. unfold declare_file. rewrite create_split. cbn [snd].
+  assert (HC : exists s1, create (KFile, l) (Some c) InitTree s = Ok s1).
+  { unfold create, creator_ok. unfold existsn in Hex. rewrite Hex. cbn [negb].
+    assert (E : key_eqb c (KFile, l) = false).
+    { apply key_eqb_neq. intros ->. discriminate. }
+    rewrite E, Hk. cbn [fst creator_kind_ok negb bind]. rewrite bind_ok_r.
+    destruct (find_node (KFile, l) s) as [n|] eqn:F; [|eexists; reflexivity].
+    rewrite (claim_none_detached l s n (Hok l) F Hcl). cbn [negb].
+    set (s0 := upd_node (KFile, l) (fun n0 => mkNode (nk n0) (Some c) (is_detached c s)) s).
+    assert (Hnf : not_file c) by (unfold not_file; rewrite Hk; discriminate).
+    assert (Hfin : forall s2, nodes s2 = nodes s0 -> products (KFile, l) s2 = []).
+    { intros s2 E2. apply products_file_nil. unfold no_file_creator_b. rewrite E2.
+      apply nfc_upd_node; assumption. }
+    pose proof (Hok l) as Hl. unfold fnode_ok, node_view in Hl. rewrite F in Hl.
+    destruct Hl as [_ Hcre].
+    pose proof (claim_none_detached l s n (Hok l) F Hcl) as D.
+    destruct (ncre n) as [oc|].
+    - destruct (Hcre D) as [Hdet Hkind]. rewrite Hdet. cbn [negb].
+      unfold after_lost_product. destruct oc as [ock ocl]. cbn [fst snd] in *.
+      destruct Hkind as [-> | ->]; cbn [bind]; rewrite Hfin by reflexivity; cbn; eexists; reflexivity.
+    - cbn [bind]. rewrite Hfin by reflexivity. cbn. eexists. reflexivity. }
+  destruct HC as [s1 HC]. rewrite HC. cbn [bind].
+  destruct (file_init_unconfirmed_ok l s1) as [s2 H2]. rewrite H2. cbn [bind]. eexists. reflexivity.
+Qed.
+
+Lemma existing_claim_view l s1 s2 :
+  node_view (KFile, l) s1 = node_view (KFile, l) s2 -> file_view l s1 = file_view l s2 ->
+  existing_claim l s1 = existing_claim l s2.
+Proof.
+  unfold existing_claim, node_view, file_view. intros Hn Hf.
+  destruct (find_node (KFile, l) s1) as [n1|], (find_node (KFile, l) s2) as [n2|]; try discriminate;
+    [|reflexivity].
+  inversion Hn as [[Hc Hd]]. rewrite Hc, Hd.
+  destruct (find_file l s1) as [r1|], (find_file l s2) as [r2|]; try discriminate; [|reflexivity].
+  inversion Hf as [[Hs Hh]]. rewrite Hs. reflexivity.
+Qed.
+
+Lemma step_key_not_file (c : key) l : fst c = KStep -> key_eqb c (KFile, l) = false.
+Proof. intros H. apply key_eqb_neq. intros ->. discriminate. Qed.
+Lemma step_or_tree_not_file (oc : key) l : fst oc = KStep \/ fst oc = KTree -> key_eqb oc (KFile, l) = false.
+Proof. intros H. apply key_eqb_neq. intros ->. destruct H; discriminate. Qed.
+
+Lemma Pst_after_decl (c : key) l s s' : fst c = KStep -> Pst s -> decl_spec c l s s' -> Pst s'.
+Proof.
+  intros Hk [Hnfc Hok] []. split; [exact ds_nfc0|].
+  assert (Hdc : is_detached c s' = is_detached c s).
+  { rewrite !is_detached_view, ds_node0, (step_key_not_file c l Hk). reflexivity. }
+  intros l0. unfold fnode_ok. rewrite ds_node0, ds_file0, file_key_eqb.
+  destruct (str_eqb l0 l) eqn:E.
+  - split; [reflexivity|]. intros D. rewrite Hdc. split; [exact D | left; exact Hk].
+  - specialize (Hok l0). unfold fnode_ok in Hok.
+    destruct (node_view (KFile, l0) s) as [[cre det]|]; [|exact I].
+    destruct Hok as [Hrow Hcre]. split; [exact Hrow|].
+    destruct cre as [oc|]; [|exact Hcre].
+    intros D. destruct (Hcre D) as [Hd Hkind]. split; [|exact Hkind].
+    rewrite is_detached_view, ds_node0, (step_or_tree_not_file oc l Hkind), <- is_detached_view. exact Hd.
+Qed.
+
+Lemma fold_decl_ok (c : key) T : forall s,
+  NoDup T -> Pst s -> fst c = KStep -> existsn c s = true ->
+  (forall l, In l T -> existing_claim l s = Ok None) ->
+  exists s', foldM (fun s l => declare_file c l FUnconfirmed s) T s = Ok s'.
+Proof.
+  induction T as [|l T IH]; intros s ND HP Hk Hex Hall; cbn [foldM]; [eexists; reflexivity|].
+  inversion ND as [|? ? Hnotin ND']; subst.
+  destruct (declare_file_unconfirmed_ok c l s HP Hk Hex (Hall l (or_introl eq_refl))) as [s1 H1].
+  rewrite H1. cbn [bind].
+  pose proof (declare_file_unconfirmed_spec c l s s1 H1 (proj1 HP)) as SP.
+  apply IH; try assumption.
+  - eapply Pst_after_decl; eassumption.
+  - destruct SP. rewrite existsn_view, ds_node0, (step_key_not_file c l Hk), <- existsn_view. exact Hex.
+  - intros l0 Hl0. destruct SP.
+    assert (E : str_eqb l0 l = false) by (apply str_eqb_neq; intros ->; contradiction).
+    rewrite (existing_claim_view l0 s1 s).
+    + apply Hall. right. exact Hl0.
+    + rewrite ds_node0, file_key_eqb, E. reflexivity.
+    + rewrite ds_file0, E. reflexivity.
+Qed.
+
+(* acceptance of a whole static request, in terms of look-ups of the state it meets *)
+Definition acc_static (c : key) (ps : list str) (s : st) : Prop :=
+  existsn c s = true /\ forall l, In l ps -> exists b, check_declaration_node c l 61 s = Ok b.
+
+Lemma newb_claim_none c s l : newb c s l = true -> existing_claim l s = Ok None.
+Proof.
+  unfold newb, check_declaration_node.
+  destruct (existing_claim l s) as [[[ro cr]|]|t|t]; cbn [bind]; try discriminate; [|reflexivity].
+  destruct ((ro =? 61) && key_eqb cr c); discriminate.
+Qed.
+Lemma claim_none_newb c s l : existing_claim l s = Ok None -> newb c s l = true.
+Proof. unfold newb, check_declaration_node. intros ->. reflexivity. Qed.
+
+Lemma todo_total c s ps :
+  (forall l, In l ps -> exists b, check_declaration_node c l 61 s = Ok b) ->
+  forall acc, foldM (fun acc l => do isnew <- check_declaration_node c l 61 s;
+                                  Ok (if isnew then acc ++ [l] else acc)) ps acc =
+              Ok (acc ++ filter (newb c s) ps).
+Proof.
+  induction ps as [|l ps IH]; intros Hall acc; cbn [foldM filter].
+  - rewrite app_nil_r. reflexivity.
+  - destruct (Hall l (or_introl eq_refl)) as [b Hb]. rewrite Hb. cbn [bind].
+    assert (Hn : newb c s l = b) by (unfold newb; rewrite Hb; destruct b; reflexivity).
+    rewrite IH by (intros l0 Hl0; apply Hall; right; exact Hl0).
+    rewrite Hn. destruct b; [rewrite <- app_assoc|]; reflexivity.
+Qed.
+
+Lemma static_accepted_iff (c : key) ps s :
+  Pst s -> fst c = KStep -> NoDup ps ->
+  (okb (OpDeclareStatic c ps) s = true <-> acc_static c ps s).
+Proof.
+  intros HP Hk ND. unfold okb. cbn [step_op]. split.
+  - destruct (declare_static_files c ps s) as [s'|t|t] eqn:R; try discriminate. intros _.
+    assert (Hnf : not_file c) by (unfold not_file; rewrite Hk; discriminate).
+    pose proof (static_request_spec c ps s s' R ND Hnf (proj1 HP)) as [_ Hall].
+    split; [|exact Hall].
+    unfold declare_static_files in R. unfold existsn.
+    destruct (is_some (find_node c s)); [reflexivity | discriminate].
+  - intros [Hex Hall]. unfold declare_static_files. unfold existsn in Hex. rewrite Hex. cbn [negb].
+    rewrite (todo_total c s ps Hall []). cbn [bind app].
+    destruct (fold_decl_ok c (filter (newb c s) ps) s) as [s' H']; try assumption.
+    + apply NoDup_filter. exact ND.
+    + intros l Hl. apply filter_In in Hl as [_ Hl]. eapply newb_claim_none. exact Hl.
+    + rewrite H'. reflexivity.
+Qed.
+
+(* ------------------------------------------------------------------------------------------ *)
+(* 14. congruence and the full diamond for static declarations; the instantiated theorem       *)
+(* ------------------------------------------------------------------------------------------ *)
+Lemma st_equiv_refl s : st_equiv s s.
+Proof. constructor; reflexivity. Qed.
+Lemma st_equiv_sym a b : st_equiv a b -> st_equiv b a.
+Proof. intros []. constructor; intros; symmetry; auto. Qed.
+Lemma st_equiv_trans a b c : st_equiv a b -> st_equiv b c -> st_equiv a c.
+Proof. intros [] []. constructor; intros; etransitivity; eauto. Qed.
+
+Lemma Pst_after_sdecl (c : key) T s s' : fst c = KStep -> Pst s -> sdecl_spec c T s s' -> Pst s'.
+Proof.
+  intros Hk [Hnfc Hok] []. split; [exact sd_nfc0|].
+  assert (Hin : in_files c T = false) by (destruct c as [[] x]; try reflexivity; discriminate).
+  assert (Hdc : is_detached c s' = is_detached c s).
+  { rewrite !is_detached_view, sd_node0, Hin. reflexivity. }
+  intros l0. unfold fnode_ok. rewrite sd_node0, sd_file0. cbn [in_files].
+  destruct (mem_str l0 T) eqn:E.
+  - split; [reflexivity|]. intros D. rewrite Hdc. split; [exact D | left; exact Hk].
+  - specialize (Hok l0). unfold fnode_ok in Hok.
+    destruct (node_view (KFile, l0) s) as [[cre det]|]; [|exact I].
+    destruct Hok as [Hrow Hcre]. split; [exact Hrow|].
+    destruct cre as [oc|]; [|exact Hcre].
+    intros D. destruct (Hcre D) as [Hd Hkind]. split; [|exact Hkind].
+    assert (Hino : in_files oc T = false) by (destruct oc as [[] x]; try reflexivity; destruct Hkind; discriminate).
+    rewrite is_detached_view, sd_node0, Hino, <- is_detached_view. exact Hd.
+Qed.
+
+Lemma newb_equiv c s s' l : st_equiv s s' -> newb c s l = newb c s' l.
+Proof.
+  intros E. unfold newb.
+  rewrite (check_declaration_view c l 61 s s'); [reflexivity | apply (eq_node _ _ E) | apply (eq_file _ _ E)].
+Qed.
+
+Lemma acc_static_equiv c ps s s' : st_equiv s s' -> acc_static c ps s -> acc_static c ps s'.
+Proof.
+  intros E [Hex Hall]. split.
+  - rewrite existsn_view, <- (eq_node _ _ E), <- existsn_view. exact Hex.
+  - intros l Hl. destruct (Hall l Hl) as [b Hb]. exists b.
+    rewrite <- (check_declaration_view c l 61 s s'); [exact Hb | apply (eq_node _ _ E) | apply (eq_file _ _ E)].
+Qed.
+
+Lemma sdecl_cong c T s s' sa sa' :
+  st_equiv s s' -> sdecl_spec c T s sa -> sdecl_spec c T s' sa' -> st_equiv sa sa'.
+Proof.
+  intros E [] [].
+  pose proof (eq_node _ _ E) as En. pose proof (eq_file _ _ E) as Ef. pose proof (eq_step _ _ E) as Es.
+  pose proof (eq_dep _ _ E) as Ed. pose proof (eq_hash _ _ E) as Eh. pose proof (eq_env _ _ E) as Ee.
+  pose proof (eq_cap _ _ E) as Ec.
+  assert (Hdet : forall k, is_detached k s = is_detached k s') by (intros k; rewrite !is_detached_view, En; reflexivity).
+  constructor.
+  - intros k. rewrite sd_node0, sd_node1, Hdet, En. reflexivity.
+  - intros l. rewrite sd_file0, sd_file1, !hh_view, Ef. reflexivity.
+  - intros l. rewrite (step_view_of_steps _ _ sd_steps0), (step_view_of_steps _ _ sd_steps1). apply Es.
+  - intros a b. rewrite sd_dep0, sd_dep1, !existsn_view, En, Ed. reflexivity.
+  - intros x. rewrite sd_hash0, sd_hash1, Eh. f_equal. f_equal.
+    apply existsb_ext_in. intros y _. rewrite !lostb_view, En. reflexivity.
+  - intros l nm. unfold find_env. rewrite sd_envs0, sd_envs1. apply Ee.
+  - congruence.
+Qed.
+
+(* the transactions and states of the instantiated theorem *)
+Definition static_by (Cs : list key) (o : op) : Prop :=
+  match o with OpDeclareStatic c ps => In c Cs /\ NoDup ps | _ => False end.
+Definition other_creator (a b : op) : Prop :=
+  match a, b with OpDeclareStatic c1 _, OpDeclareStatic c2 _ => c1 <> c2 | _, _ => False end.
+Definition Pcs (Cs : list key) (s : st) : Prop :=
+  Pst s /\ forall c, In c Cs -> fst c = KStep /\ attached c s = true.
+
+Lemma okb_ok o s : okb o s = true -> exists s', step_op o s = Ok s' /\ apply_op s o = s'.
+Proof.
+  unfold okb, apply_op. destruct (step_op o s) as [s'|t|t]; try discriminate. intros _. exists s'. auto.
+Qed.
+Lemma okb_false_apply o s : okb o s = false -> apply_op s o = s.
+Proof. unfold okb, apply_op. destruct (step_op o s); [discriminate|reflexivity|reflexivity]. Qed.
+
+Lemma static_step_spec Cs c ps s s' :
+  Pcs Cs s -> In c Cs -> NoDup ps -> step_op (OpDeclareStatic c ps) s = Ok s' ->
+  sdecl_spec c (filter (newb c s) ps) s s'.
+Proof.
+  intros [HP HC] Hc ND R. cbn [step_op] in R. destruct (HC c Hc) as [Hk _].
+  apply static_request_spec in R as [S _]; try assumption; [|exact (proj1 HP)].
+  unfold not_file. rewrite Hk. discriminate.
+Qed.
+
+Lemma Pcs_step Cs o s : static_by Cs o -> Pcs Cs s -> Pcs Cs (apply_op s o).
+Proof.
+  destruct o; try contradiction. intros [Hc ND] HP.
+  destruct (okb (OpDeclareStatic creator paths) s) eqn:O; [|rewrite okb_false_apply by exact O; exact HP].
+  destruct (okb_ok _ _ O) as [s' [R ->]].
+  pose proof (static_step_spec Cs creator paths s s' HP Hc ND R) as S.
+  destruct HP as [HP HC]. split.
+  - eapply Pst_after_sdecl; [exact (proj1 (HC creator Hc)) | exact HP | exact S].
+  - intros c0 Hc0. destruct (HC c0 Hc0) as [Hk Ha]. split; [exact Hk|].
+    destruct S. unfold attached in *. rewrite is_detached_view, sd_node0.
+    assert (Hin : in_files c0 (filter (newb creator s) paths) = false)
+      by (destruct c0 as [[] x]; try reflexivity; discriminate).
+    rewrite Hin, <- is_detached_view. exact Ha.
+Qed.
+
+Lemma static_cong Cs o s s' :
+  static_by Cs o -> Pcs Cs s -> Pcs Cs s' -> st_equiv s s' ->
+  okb o s = okb o s' /\ st_equiv (apply_op s o) (apply_op s' o).
+Proof.
+  destruct o; try contradiction. intros [Hc ND] HP HP' E.
+  destruct (proj2 HP creator Hc) as [Hk _].
+  assert (Hok : okb (OpDeclareStatic creator paths) s = okb (OpDeclareStatic creator paths) s').
+  { apply Bool.eq_iff_eq_true.
+    rewrite (static_accepted_iff creator paths s (proj1 HP) Hk ND),
+            (static_accepted_iff creator paths s' (proj1 HP') Hk ND).
+    split; apply acc_static_equiv; [exact E | apply st_equiv_sym; exact E]. }
+  split; [exact Hok|].
+  destruct (okb (OpDeclareStatic creator paths) s) eqn:O.
+  - symmetry in Hok. destruct (okb_ok _ _ O) as [sa [R ->]]. destruct (okb_ok _ _ Hok) as [sa' [R' ->]].
+    pose proof (static_step_spec Cs _ _ _ _ HP Hc ND R) as S.
+    pose proof (static_step_spec Cs _ _ _ _ HP' Hc ND R') as S'.
+    rewrite <- (filter_ext (newb creator s) (newb creator s')) in S' by (intros l; apply newb_equiv; exact E).
+    eapply sdecl_cong; eassumption.
+  - symmetry in Hok. rewrite (okb_false_apply _ _ O), (okb_false_apply _ _ Hok). exact E.
+Qed.
+
+(* acceptance of b's request after a's: accepted in s, and none of its paths was just declared by a *)
+Lemma acc_after_static (ca cb : key) psa psb s sa :
+  ca <> cb -> attached ca s = true -> fst cb = KStep ->
+  sdecl_spec ca (filter (newb ca s) psa) s sa ->
+  (acc_static cb psb sa <->
+   acc_static cb psb s /\ forall l, In l psb -> mem_str l (filter (newb ca s) psa) = false).
+Proof.
+  intros Hne Hatt Hkb S. pose proof S as S0. destruct S.
+  assert (Hin : in_files cb (filter (newb ca s) psa) = false)
+    by (destruct cb as [[] x]; try reflexivity; discriminate).
+  assert (Hex : existsn cb sa = existsn cb s) by (rewrite !existsn_view, sd_node0, Hin; reflexivity).
+  split.
+  - intros [Hexa Hall].
+    destruct (second_request_same_todo ca cb psa psb s sa Hne Hatt S0 Hall) as [D _].
+    split; [|exact D]. split; [rewrite <- Hex; exact Hexa|].
+    intros l Hl. destruct (Hall l Hl) as [b Hb]. exists b.
+    rewrite <- (check_declaration_view cb l 61 sa s); [exact Hb | |].
+    + rewrite sd_node0. cbn [in_files]. rewrite (D l Hl). reflexivity.
+    + rewrite sd_file0, (D l Hl). reflexivity.
+  - intros [[Hexs Hall] D]. split; [rewrite Hex; exact Hexs|].
+    intros l Hl. destruct (Hall l Hl) as [b Hb]. exists b.
+    rewrite (check_declaration_view cb l 61 sa s); [exact Hb | |].
+    + rewrite sd_node0. cbn [in_files]. rewrite (D l Hl). reflexivity.
+    + rewrite sd_file0, (D l Hl). reflexivity.
+Qed.
+
+(* "a new path of a's request is also mentioned by b" is symmetric in a and b: whether a path is
+   new does not depend on who asks *)
+Lemma disjoint_new_sym ca cb psa psb s :
+  (forall l, In l psb -> mem_str l (filter (newb ca s) psa) = false) ->
+  (forall l, In l psa -> mem_str l (filter (newb cb s) psb) = false).
+Proof.
+  intros H l Hl. apply mem_str_false. intros HI. apply filter_In in HI as [HIb Hn].
+  specialize (H l HIb). apply mem_str_false in H. apply H. apply filter_In. split; [exact Hl|].
+  apply claim_none_newb. eapply newb_claim_none. exact Hn.
+Qed.
+
+Lemma accepted2_static_iff Cs ca psa cb psb s :
+  Pcs Cs s -> In ca Cs -> In cb Cs -> NoDup psa -> NoDup psb -> ca <> cb ->
+  (accepted2 (OpDeclareStatic ca psa) (OpDeclareStatic cb psb) s = true <->
+   acc_static ca psa s /\ acc_static cb psb s /\
+   forall l, In l psb -> mem_str l (filter (newb ca s) psa) = false).
+Proof.
+  intros HP Ha Hb NDa NDb Hne. unfold accepted2. rewrite andb_true_iff.
+  destruct (proj2 HP ca Ha) as [Hka Hatta]. destruct (proj2 HP cb Hb) as [Hkb _].
+  rewrite (static_accepted_iff ca psa s (proj1 HP) Hka NDa). split.
+  - intros [Hacc O2]. pose proof Hacc as Hacc0.
+    apply (static_accepted_iff ca psa s (proj1 HP) Hka NDa) in Hacc.
+    destruct (okb_ok _ _ Hacc) as [sa [R E]]. rewrite E in O2.
+    pose proof (static_step_spec Cs _ _ _ _ HP Ha NDa R) as S.
+    assert (HPa : Pst sa) by (eapply Pst_after_sdecl; [exact Hka | exact (proj1 HP) | exact S]).
+    apply (static_accepted_iff cb psb sa HPa Hkb NDb) in O2.
+    apply (acc_after_static ca cb psa psb s sa Hne Hatta Hkb S) in O2 as [A2 D].
+    split; [exact Hacc0 | split; [exact A2 | exact D]].
+  - intros (Hacc & A2 & D). split; [exact Hacc|]. pose proof Hacc as Hacc0.
+    apply (static_accepted_iff ca psa s (proj1 HP) Hka NDa) in Hacc.
+    destruct (okb_ok _ _ Hacc) as [sa [R E]]. rewrite E.
+    pose proof (static_step_spec Cs _ _ _ _ HP Ha NDa R) as S.
+    assert (HPa : Pst sa) by (eapply Pst_after_sdecl; [exact Hka | exact (proj1 HP) | exact S]).
+    apply (static_accepted_iff cb psb sa HPa Hkb NDb).
+    apply (acc_after_static ca cb psa psb s sa Hne Hatta Hkb S). split; assumption.
+Qed.
+
+(* clause (b): the pair is accepted in both orders or in neither; clause (a): if accepted, the
+   graphs agree *)
+Lemma static_diamond Cs a b s :
+  other_creator a b -> static_by Cs a -> static_by Cs b -> Pcs Cs s ->
+  accepted2 a b s = accepted2 b a s /\
+  (accepted2 a b s = true -> st_equiv (apply_op (apply_op s a) b) (apply_op (apply_op s b) a)).
+Proof.
+  destruct a as [ca psa| | | | | | | | | | | | |], b as [cb psb| | | | | | | | | | | | |]; try contradiction.
+  intros Hne [Ha NDa] [Hb NDb] HP.
+  assert (Hsym : accepted2 (OpDeclareStatic ca psa) (OpDeclareStatic cb psb) s =
+                 accepted2 (OpDeclareStatic cb psb) (OpDeclareStatic ca psa) s).
+  { apply Bool.eq_iff_eq_true.
+    rewrite (accepted2_static_iff Cs ca psa cb psb s HP Ha Hb NDa NDb Hne),
+            (accepted2_static_iff Cs cb psb ca psa s HP Hb Ha NDb NDa (not_eq_sym Hne)).
+    split; intros (A1 & A2 & D); (split; [exact A2 | split; [exact A1 | eapply disjoint_new_sym; exact D]]). }
+  split; [exact Hsym|]. intros A12. pose proof A12 as A21. rewrite Hsym in A21.
+  unfold accepted2 in A12, A21. apply andb_true_iff in A12 as [Oa Ob']. apply andb_true_iff in A21 as [Ob Oa'].
+  destruct (okb_ok _ _ Oa) as [sa [Ra Ea]]. rewrite Ea in *.
+  destruct (okb_ok _ _ Ob) as [sb [Rb Eb]]. rewrite Eb in *.
+  destruct (okb_ok _ _ Ob') as [s12 [R12 E12]]. destruct (okb_ok _ _ Oa') as [s21 [R21 E21]].
+  rewrite E12, E21.
+  destruct (proj2 HP ca Ha) as [Hka Hatta]. destruct (proj2 HP cb Hb) as [Hkb Hattb].
+  eapply (static_static_commute s sa sb s12 s21 ca cb psa psb); try eassumption.
+  - exact (proj1 (proj1 HP)).
+  - unfold not_file. rewrite Hka. discriminate.
+  - unfold not_file. rewrite Hkb. discriminate.
+Qed.
+
+(* schedule_independent_static_partial: any two arrival orders (related by swaps of requests of
+   different creators) of static declarations issued by a set Cs of attached steps are accepted
+   or refused alike, and if accepted produce the same graph. *)
+Theorem schedule_independent_static_partial (Cs : list key) (l1 l2 : list op) (s : st) :
+  Pcs Cs s -> Forall (static_by Cs) l1 -> swaps other_creator l1 l2 ->
+  all_ok l1 s = all_ok l2 s /\ (all_ok l1 s = true -> st_equiv (run_ops l1 s) (run_ops l2 s)).
+Proof.
+  intros HP HC HS.
+  destruct (swaps_sound st_equiv (Pcs Cs) other_creator (static_by Cs)
+              st_equiv_refl st_equiv_trans (Pcs_step Cs) (static_cong Cs) (static_diamond Cs)
+              l1 l2 HS HC s HP) as (_ & A & E).
+  split; assumption.
+Qed.
+
+(* the hypothesis Pst on the state follows from the invariant of C09 *)
+Lemma inv_parts_Pst s :
+  inv_nodes_b s = true -> inv_local_b s = true -> inv_rows_b s = true -> Pst s.
+Proof.
+  intros Hnodes Hlocal Hrows.
+  unfold inv_nodes_b in Hnodes. apply andb_true_iff in Hnodes as [Hn1 Hkinds].
+  apply andb_true_iff in Hn1 as [Hnd Hroot].
+  unfold inv_local_b in Hlocal. rewrite forallb_forall in Hlocal. rewrite forallb_forall in Hkinds.
+  assert (Hnfc : no_file_creator_b s = true).
+  { unfold no_file_creator_b. apply forallb_forall. intros n Hn. specialize (Hlocal n Hn).
+    destruct (ncre n) as [[[] cl]|] eqn:C; try reflexivity. exfalso.
+    destruct (key_eqb (nk n) root_key) eqn:R.
+    - apply key_eqb_eq in R.
+      assert (F : find_node root_key s = Some n).
+      { unfold find_node. rewrite <- R. apply (find_self nk key_eqb key_eqb_eq); assumption. }
+      rewrite F, C in Hroot. cbn in Hroot. discriminate.
+    - cbn [orb] in Hlocal. destruct (find_node (KFile, cl) s) as [cn|]; [|discriminate].
+      apply andb_true_iff in Hlocal as [_ K]. cbn [fst] in K. destruct (fst (nk n)); discriminate. }
+  split; [exact Hnfc|].
+  intros l. unfold fnode_ok, node_view. destruct (find_node (KFile, l) s) as [n|] eqn:F; [|exact I].
+  pose proof (find_node_key _ _ _ F) as Hkey. apply find_some in F as [Hin _].
+  split.
+  - unfold inv_rows_b in Hrows. repeat (apply andb_true_iff in Hrows as [Hrows ?]).
+    match goal with H : forallb _ (nodes s) = true |- _ => rewrite forallb_forall in H; specialize (H n Hin); rename H into Hrow end.
+    rewrite Hkey in Hrow. cbn [fst snd] in Hrow.
+    unfold file_view. destruct (find_file l s); [reflexivity | discriminate].
+  - specialize (Hlocal n Hin). rewrite Hkey in Hlocal.
+    change (key_eqb (KFile, l) root_key) with false in Hlocal. cbn [orb] in Hlocal.
+    destruct (ncre n) as [oc|]; [|exact Hlocal].
+    intros D. destruct (find_node oc s) as [cn|] eqn:FC; [|discriminate].
+    apply andb_true_iff in Hlocal as [Hl K]. apply andb_true_iff in Hl as [Hd _].
+    apply Bool.eqb_prop in Hd. split.
+    + unfold is_detached. rewrite FC, <- Hd. exact D.
+    + cbn [fst] in K. destruct oc as [[] ocl]; cbn in K; try discriminate;
+        [|left; reflexivity|right; reflexivity].
+      exfalso. pose proof (find_node_key _ _ _ FC) as Hck. pose proof FC as FC0.
+      apply find_some in FC0 as [Hcin _]. specialize (Hkinds cn Hcin). rewrite Hck in Hkinds.
+      cbn in Hkinds. apply str_eqb_eq in Hkinds. subst ocl. change (KRoot, @nil N) with root_key in FC.
+      rewrite FC in Hroot.
+      apply andb_true_iff in Hroot as [_ Hrd]. apply negb_true_iff in Hrd. congruence.
+Qed.
+
+Lemma inv_b_Pst s : inv_b s = true -> Pst s.
+Proof.
+  unfold inv_b. intros H.
+  repeat (match type of H with (andb _ _ = true) => apply andb_true_iff in H as [H ?] end).
+  apply inv_parts_Pst; assumption.
+Qed.
